@@ -751,6 +751,7 @@ func (w *worker) dataset(idx int, thorough bool) {
 	}
 	ctx.Count("datasets", 1)
 	ctx.Count("objects_loaded", int64(n))
+	w.hostileCursors(d)
 	qs := genQueries(r, d, perShape)
 	distCache := map[string]map[string]string{}
 	for _, q := range qs {
@@ -800,7 +801,7 @@ func (w *worker) dataset(idx int, thorough bool) {
 
 // Run is the C11 check.
 func Run(ctx *core.Ctx) {
-	ctx.Rule = "PRNG datasets (n objects, strings/points/rectangles/linestrings/polygons mixed, fields n (numeric), f (all value kinds), g (strings), each partly missing) x {SCAN, SCAN DESC, SEARCH ASC, SEARCH DESC, WITHIN, INTERSECTS, NEARBY} x 12 filter-kind combinations of MATCH/WHERE/WHEREIN/WHEREEVAL x outputs IDS + one of OBJECTS/POINTS x every LIMIT 1..n+1 (n > 80, up to 800 (quick) / 1000 (thorough) objects: 30-55 chosen LIMITs incl. 1..12, m/k, m/k+-1, n, n+1, 2^k and 2^k+-1 up to 513); each LIMIT is paged by following the returned cursor until 0 and the concatenation compared element by element (id, object, fields) with the single LIMIT n+1 reply; at every page boundary of the IDS runs `CURSOR c LIMIT n+1 COUNT` is compared with the number of ids still to come. non-trivial = the result spans >= 2 pages (result size > LIMIT); distinct key = (command, filter kinds, order, LIMIT)"
+	ctx.Rule = "PRNG datasets (n objects, strings/points/rectangles/linestrings/polygons mixed, fields n (numeric), f (all value kinds), g (strings), each partly missing) x {SCAN, SCAN DESC, SEARCH ASC, SEARCH DESC, WITHIN, INTERSECTS, NEARBY} x 12 filter-kind combinations of MATCH/WHERE/WHEREIN/WHEREEVAL x outputs IDS + one of OBJECTS/POINTS x every LIMIT 1..n+1 (n > 80, up to 800 (quick) / 1000 (thorough) objects: 30-55 chosen LIMITs incl. 1..12, m/k, m/k+-1, n, n+1, 2^k and 2^k+-1 up to 513); each LIMIT is paged by following the returned cursor until 0 and the concatenation compared element by element (id, object, fields) with the single LIMIT n+1 reply; at every page boundary of the IDS runs `CURSOR c LIMIT n+1 COUNT` is compared with the number of ids still to come. hostile cursors (n, n+1, 2^31.., 2^64-1): empty page, cursor 0, COUNT = number of IDS. non-trivial = the result spans >= 2 pages (result size > LIMIT); distinct key = (command, filter kinds, order, LIMIT)"
 	ctx.Assumptions = []string{
 		"the collection does not change during paging (each dataset is loaded once by the only client that queries it)",
 		"NEARBY: a different order among objects at exactly equal distance is accepted",
@@ -847,4 +848,73 @@ func Run(ctx *core.Ctx) {
 	}
 	wg.Wait()
 	ctx.Finish()
+}
+
+// hostileCursors: a CURSOR beyond the collection (up to the largest 64-bit
+// value) is an ordinary "nothing remains": the page is empty, its cursor is 0,
+// and COUNT agrees with the number of ids of the same query.
+func (w *worker) hostileCursors(d *dataset) {
+	if w.dead {
+		return
+	}
+	ctx := w.ctx
+	cursors := []string{strconv.Itoa(d.n), strconv.Itoa(d.n + 1), "2147483647", "2147483648", "4294967295", "4294967296", "9223372036854775807", "9223372036854775808", "18446744073709551615"}
+	forms := [][]string{{"SCAN", d.key}, {"SCAN", d.key, "DESC"}, {"SEARCH", d.key}, {"WITHIN", d.key}, {"INTERSECTS", d.key}, {"NEARBY", d.key}, {"SCAN", d.key, "MATCH", "a*"}, {"SCAN", d.key, "WHERE", "n", "-inf", "+inf"}}
+	tail := map[string][]string{"WITHIN": {"BOUNDS", "-90", "-180", "90", "180"}, "INTERSECTS": {"BOUNDS", "-90", "-180", "90", "180"}, "NEARBY": {"POINT", "0", "0"}}
+	for _, f := range forms {
+		for _, cur := range cursors {
+			var lens [2]int64
+			var replies [2]string
+			ok := true
+			for k, out := range []string{"IDS", "COUNT"} {
+				cmd := append(append(append([]string{}, f...), "CURSOR", cur, out), tail[f[0]]...)
+				rp, err := w.c.Do(cmd...)
+				if err != nil {
+					w.infra("hostile cursor", err)
+					return
+				}
+				replies[k] = rp.String()
+				if rp.IsErr() {
+					ok = false // refusing the value is fine
+					break
+				}
+				if out == "IDS" {
+					if rp.Kind != '*' || len(rp.Arr) != 2 {
+						ok = false
+						break
+					}
+					lens[k] = int64(len(rp.Arr[1].Arr))
+					if rp.Arr[0].Int != 0 && lens[k] == 0 {
+						w.violation("paging:hostile-cursor:"+strings.ToLower(f[0]), fmt.Sprintf("%q: an empty page with the non-zero cursor %d", cmd, rp.Arr[0].Int), map[string]any{"dataset": d.sets, "query": cmd})
+						return
+					}
+				} else {
+					if rp.Kind == ':' {
+						lens[k] = rp.Int
+					} else if rp.Kind == '*' && len(rp.Arr) == 2 {
+						lens[k] = rp.Arr[1].Int
+					} else {
+						ok = false
+					}
+				}
+			}
+			if !ok {
+				continue
+			}
+			ctx.Eval(1)
+			ctx.Count("hostile_cursor_probes", 1)
+			if lens[0] != lens[1] {
+				w.violation("count:hostile-cursor:"+strings.ToLower(f[0]), fmt.Sprintf("%q CURSOR %s: IDS returns %d ids (%s), COUNT answers %d (%s) on a collection of %d objects", f, cur, lens[0], clipS(replies[0], 80), lens[1], clipS(replies[1], 80), d.n),
+					map[string]any{"dataset": d.sets, "query": f, "cursor": cur})
+				return
+			}
+		}
+	}
+}
+
+func clipS(s string, n int) string {
+	if len(s) > n {
+		return s[:n] + "..."
+	}
+	return s
 }
